@@ -46,6 +46,8 @@ class C04(Prop):
 
     # translator tie (DESIGN II.7): module -> pipeline heads built from that observer
     tie_modules = {
+        # critical sections read off the source (rs2lean/src/holds.rs): which calls are made while which shared cell is held — the policies (P7: buffer flushes a window with its shared cell held)
+        "RxModel.GenTie.Holds": [],
         "RxModel.GenTie.RcObserver": ['takeuntil', 'skipuntil', 'sample', 'withlatest'],
         "RxModel.GenTie.Merge": ['merge'],
         "RxModel.GenTie.WiringMerge": ['merge'],
